@@ -130,7 +130,7 @@ Proof. vm_compute. reflexivity. Qed.
 Example ex_sqlite_cell_not_defect : ~ In ("sqlite", "function", "Element") defect_cells.
 Proof. vm_compute. intuition discriminate. Qed.
 Example ex_judge_good :
-  judge "sqlite" "zq" [] "WITH t_0_T AS (SELECT 1 AS a, '(' AS b) SELECT T.a AS x, x_4.value AS y FROM t_0_T AS T, JSON_EACH(JSON_ARRAY(1, T.a)) as x_4 WHERE (T.a = x_4.value)" = 31%N.
+  judge "sqlite" "zq" [] "WITH t_0_T AS (SELECT 1 AS a, '(' AS b) SELECT T.a AS x, x_4.value AS y FROM t_0_T AS T, JSON_EACH(JSON_ARRAY(1, T.a)) as x_4 WHERE (T.a = x_4.value)" = 63%N.
 Proof. vm_compute. reflexivity. Qed.
 Example ex_judge_unbalanced : N.land (judge "sqlite" "zq" [] "SELECT (T.a AS x FROM t AS T") 1 = 0%N.
 Proof. vm_compute. reflexivity. Qed.
@@ -165,4 +165,11 @@ Example ex_unnest_sorted :
   Some [("x_10", []); ("x_2", ["x_10"; "a"]); ("x_1", ["x_2"])]%string.
 Proof. reflexivity. Qed.
 Example ex_unnest_circular : sort_unnestings [("x_1", ["x_2"]); ("x_2", ["x_1"])]%string = None.
+Proof. reflexivity. Qed.
+
+(* a `--` that does not begin its line comments out the rest of the line: never "all good" *)
+Example ex_judge_comment_hazard : N.land (judge "sqlite" "zq" ["t"] "SELECT (--T.a) AS x FROM t AS T") 32 = 0%N.
+Proof. reflexivity. Qed.
+Example ex_judge_whole_line_comment : N.land (judge "sqlite" "zq" ["t"] "-- Interacting with table t
+SELECT - -T.a AS x FROM t AS T") 32 = 32%N.
 Proof. reflexivity. Qed.
